@@ -151,7 +151,8 @@ def text_of(htmltext):
 
 HEAD_TEXTS = ["alpha", "beta *em* gamma", "`code` here", "a **strong** b", "x &amp; y", "[link](http://u.v) z", "tail <b>raw</b> t",
               "q < r", "plain words here", "![img](i.png) cap", "one\\*two", "e ~~s~~ f", "",
-              "c <!-- x > y --> d", "<!-- a --> b <i>c</i>", "e <!-- --> f <!-- > -->", "x <a href=\"u\">l</a> y", "<span class=\"k\">s</span> t <!-- <b> -->", "[l](/u \"a>b\") m", "![a > b](/i.png) n"]
+              "c <!-- x > y --> d", "<!-- a --> b <i>c</i>", "e <!-- --> f <!-- > -->", "x <a href=\"u\">l</a> y", "<span class=\"k\">s</span> t <!-- <b> -->", "[l](/u \"a>b\") m", "![a > b](/i.png) n",
+              "[foo][bar] and [baz]", "see [baz] x", "<span title=\"a>b\">x</span> y", "foo <!-- a >\n b --> bar", "<i data-x='>'>k</i> l"]
 
 
 def heading_doc(rng):
@@ -160,7 +161,9 @@ def heading_doc(rng):
         r = rng.random()
         lvl = rng.randint(1, 6)
         txt = rng.choice(HEAD_TEXTS)
-        if r < 0.6:
+        if "\n" in txt:
+            lines.append(txt + "\n" + ("===" if lvl % 2 else "---"))       # a heading text of two lines exists only in setext form
+        elif r < 0.6:
             lines.append("#" * lvl + " " + txt)
         elif r < 0.7 and txt and "\\" not in txt:
             lines.append(txt + "\n" + ("===" if lvl % 2 else "---"))
@@ -171,7 +174,7 @@ def heading_doc(rng):
         else:
             lines.append("para " + txt)
         lines.append("")
-    return "\n".join(lines) + "\n"
+    return "\n".join(lines) + "\n[bar]: /u\n[baz]: /v 'T'\n"
 
 
 def expected_items(doc, lo, hi, all_ids=False, escape=True):
